@@ -31,6 +31,10 @@ func (c *smConn) close() error                { return nil }
 var smWireAB, smWireBA [][]byte
 
 func vfstub_sm_waitForSend(s *Session, hdr header, body []byte) error {
+	if s.shutdown != 0 {
+		// the real call selects on shutdownCh and gives up with the session's shutdown error
+		return s.shutdownErr
+	}
 	if s.isClient {
 		smWireAB = append(smWireAB, body)
 	} else {
@@ -412,7 +416,13 @@ func H_SM_history() {
 		}
 		w.monotone()
 	}
-	// wind down: deliver what is in flight, both ends close every stream, deliver the closes
+	w.windDown()
+	vfCover("SM.history.end")
+}
+
+// windDown: deliver what is in flight, both ends close every stream, deliver the closes; then
+// nothing may be left active and every buffer must be back
+func (w *smWorld) windDown() {
 	w.deliverAB()
 	w.deliverBA()
 	for i := 0; i < w.nstr; i++ {
@@ -443,7 +453,86 @@ func H_SM_history() {
 	vfAssert(len(w.A.streams) == 0, "C10.no-active-stream-left-on-A")
 	vfAssert(len(w.B.streams) == 0, "C10.no-active-stream-left-on-B")
 	vfAssert(w.allBack(), "C09.all-shared-memory-back-after-all-streams-closed")
-	vfCover("SM.history.end")
+}
+
+// ---------------------------------------------------------------------------------------------
+// C09 / C10 / C11 (Flush retry window, sync-point hook): the client's send queue is full, a further
+// Flush enters its retry loop and is stopped in front of its k-th synchronisation operation while
+// (0) the server's event loop consumes the queue, (1) the server closes the stream and the close
+// reaches the client, or (2) the client's session dies. Flush must return with one of its documented results, what it could not send
+// is released, and after the wind-down every buffer is back.
+func H_SM_flushwindow() {
+	vfInfeasibleOK()
+	w := smSetup()
+	w.open()
+	w.send(0, true, 3)
+	w.deliverAB()
+	vfAssert(w.b[0].stream != nil, "SM.window.setup")
+	w.send(0, true, 3)
+	w.send(0, true, 3) // queue capacity 2, the server does not consume: full
+	s := w.a[0].stream
+	k := []int{3, 9}[vfShape("size", 0, 1)]
+	data := vfBytes(k)
+	n, err := s.BufferWriter().WriteBytes(data)
+	vfAssert(err == nil && n == k, "SM.write")
+	cut := vfShape("cut", 0, 40)
+	adv := vfShape("adversary", 0, 2)
+	dA := &c13Dispatcher{}
+	w.A.dispatcher = dA
+	fired := false
+	vfSyncHook(cut, func() {
+		fired = true
+		switch adv {
+		case 0:
+			w.deliverAB()
+		case 1:
+			w.closeEnd(0, false)
+			w.deliverBA()
+		default:
+			// (2) the client's session dies (peer death / local Close) and the event loop runs
+			// its deferred teardown
+			w.A.Close()
+			for i := 0; i < 2; i++ {
+				if i < len(dA.posted) {
+					dA.posted[i]()
+				}
+			}
+		}
+	})
+	ferr := s.Flush(false)
+	vfStallHookOff()
+	if !fired {
+		vfPrune() // Flush has fewer synchronisation operations than the cut
+	}
+	if adv == 2 {
+		vfAssert(ferr != nil, "C14.pending-flush-fails-on-session-death")
+		vfAssert(s.BufferWriter().Len() == 0, "C14.failed-flush-leaves-nothing-buffered")
+		_, rerr := s.BufferReader().ReadBytes(1)
+		vfAssert(rerr != nil, "C14.pending-and-later-reads-fail")
+		vfCover("SM.flushwindow.end")
+		return
+	}
+	vfAssert(ferr == nil || ferr == ErrQueueFull || ferr == ErrStreamClosed, "C11.flush-returns-a-documented-result")
+	vfAssert(s.BufferWriter().Len() == 0, "C11.flush-leaves-nothing-buffered")
+	if ferr == nil {
+		for j := 0; j < k; j++ {
+			w.b[0].model[w.b[0].sent+j] = data[j]
+		}
+		w.b[0].sent += k
+	}
+	if adv == 0 {
+		vfAssert(ferr != ErrStreamClosed, "C10.open-stream-flush-not-closed-error")
+	}
+	// the server reads what reached it (unless it closed), in order
+	w.deliverAB()
+	if !w.b[0].closed {
+		bs := w.b[0].stream
+		bs.pendingData.moveTo(bs.recvBuf)
+		vfAssert(bs.recvBuf.Len() == w.b[0].sent, "C07.everything-flushed-is-readable")
+		w.recv(0, false, w.b[0].sent)
+	}
+	w.windDown()
+	vfCover("SM.flushwindow.end")
 }
 
 // ---------------------------------------------------------------------------------------------
@@ -913,3 +1002,44 @@ func H_C11_release() {
 	}
 	vfCover("C11.release.end")
 }
+
+// ---------------------------------------------------------------------------------------------
+// C05 over the session model (wake-up window, sync-point hook): the first message's polling event
+// is still on the wire; the second Flush is stopped in front of its k-th synchronisation operation
+// (between its queue put and its wake-up among others) while the server's event loop handles the
+// late event and consumes what is in the queue; a third message follows. At quiescence an element
+// in the queue without a polling event under way would be stranded.
+func H_SM_wakewindow() {
+	vfInfeasibleOK()
+	w := smSetup()
+	w.open()
+	w.send(0, true, 3)
+	cut := vfShape("cut", 0, 24)
+	fired := false
+	vfSyncHook(cut, func() {
+		fired = true
+		w.deliverAB()
+	})
+	w.send(0, true, 3)
+	vfStallHookOff()
+	if !fired {
+		vfPrune()
+	}
+	if vfShape("between", 0, 1) == 1 {
+		w.deliverAB()
+	}
+	w.send(0, true, 3)
+	vfAssert(w.B.queueManager.recvQueue.isEmpty() || len(smWireAB) > 0, "C05.no-stranded-element")
+	w.deliverAB()
+	vfAssert(w.B.queueManager.recvQueue.isEmpty(), "C05.consumer-drains-the-queue")
+	vfAssert(w.b[0].stream != nil, "C19.stream-surfaces")
+	bs := w.b[0].stream
+	bs.pendingData.moveTo(bs.recvBuf)
+	vfAssert(bs.recvBuf.Len() == w.b[0].sent, "C07.everything-flushed-is-readable")
+	w.recv(0, false, w.b[0].sent)
+	w.windDown()
+	vfCover("SM.wakewindow.end")
+}
+
+// the session model's queue memory is plain harness memory: nothing to unmap or unlink
+func vfstub_sm_qmUnmap(q *queueManager) {}
